@@ -27,11 +27,14 @@ TRejMulti == Step /\ Ev.op = "rejmulti" /\
             LET W == {p[1] : p \in Rng(Ev.w)}
                 w == [k \in W |-> (CHOOSE p \in Rng(Ev.w) : p[1] = k)[2]]
             IN \E S \in SUBSET W : RejectedMulti(Ev.f, W, w, S) /\ PostOK
-TReject  == Step /\ Ev.op = "reject" /\ Reject(Ev.k, Ev.kind, Ev.api) /\ PostOK
+TReject  == Step /\ Ev.op = "reject" /\ Ev.kind \notin Hows /\ Reject(Ev.k, Ev.kind, Ev.api) /\ PostOK
+\* (the exploration bound inside RejectField does not apply to recorded traces: a rejected write changes nothing wherever it occurs)
+TRejectField == Step /\ Ev.op = "reject" /\ Ev.kind \in Hows /\ Ev.fld \in Fields(Ev.k[1]) /\ UNCHANGED store
+                /\ hist' = Append(hist, [op |-> "reject", api |-> Ev.api, k |-> Ev.k, kind |-> Ev.kind, fld |-> Ev.fld]) /\ PostOK
 
 TInstall == Step /\ Ev.op = "install" /\ Ev.front \in InstFronts /\ Ev.s \in Species /\ Ev.d \in Donors /\ Install(Ev.front, Ev.s, Ev.d) /\ PostOK
 
-TraceNext == TWrite \/ TMulti \/ TRejMulti \/ TReject \/ TInstall
+TraceNext == TWrite \/ TMulti \/ TRejMulti \/ TReject \/ TRejectField \/ TInstall
 TraceSpec == TraceInit /\ [][TraceNext]_tvars
 
 \* progress report: the harness accepts trace tid iff some state reports l = Len + 1
